@@ -149,3 +149,51 @@ Qed.
 (* a group that contains a fine step is kept *)
 Lemma coarse_groups_in_keep g cpts grp i : In grp (coarse_groups g cpts) -> In i grp -> In grp (coarse_groups_in g cpts).
 Proof. intros H Hi. unfold coarse_groups_in. apply filter_In. split; [exact H|]. destruct grp; [destruct Hi|reflexivity]. Qed.
+
+(* ---------- a restricted grid restricted once more (basic_classes.py:102-110 with a restricted grid as reference) ---------- *)
+Fixpoint fmask {A} (keep : list bool) (l : list A) : list A :=
+  match keep, l with
+  | k :: keep', a :: l' => if k then a :: fmask keep' l' else fmask keep' l'
+  | _, _ => []
+  end.
+Definition restrict_rg (r : rgrid) (s e : Z) : rgrid :=
+  let keep := map (in_window s e) (rg_tp r) in
+  {| rg_I := fmask keep (rg_I r); rg_tp := fmask keep (rg_tp r); rg_dt := fmask keep (rg_dt r); rg_Dt := fmask keep (rg_Dt r);
+     rg_disc := fmask keep (rg_disc r); rg_minor := None |}.
+
+Lemma fmask_map {A B} (f : nat -> bool) (k : nat -> B) (h : nat -> A) (q : A -> bool) :
+  (forall i, q (h i) = f i) -> forall I, fmask (map q (map h I)) (map k I) = map k (filter f I).
+Proof.
+  intros Hq. induction I as [|i I IH]; [reflexivity|]. cbn [map fmask filter]. rewrite Hq. destruct (f i); cbn [map]; rewrite IH; reflexivity.
+Qed.
+
+Lemma filter_filter {A} (p q : A -> bool) l : filter q (filter p l) = filter (fun x => p x && q x) l.
+Proof.
+  induction l as [|a l IH]; [reflexivity|]. cbn [filter]. destruct (p a); cbn [filter andb]; [destruct (q a)|]; rewrite IH; reflexivity.
+Qed.
+
+Lemma in_window_meet s1 e1 s2 e2 p : in_window s1 e1 p && in_window s2 e2 p = in_window (Z.max s1 s2) (Z.min e1 e2) p.
+Proof.
+  unfold in_window.
+  destruct (Z.leb_spec s1 p); destruct (Z.ltb_spec p e1); destruct (Z.leb_spec s2 p); destruct (Z.ltb_spec p e2);
+  destruct (Z.leb_spec (Z.max s1 s2) p); destruct (Z.ltb_spec p (Z.min e1 e2)); cbn; try reflexivity; lia.
+Qed.
+
+(* restricting in two steps is restricting to the intersection of the windows: same indices IN THE ORIGINAL GRID, same points,
+   step lengths, cumulated times and discount factors *)
+Theorem restrict_twice g disc s1 e1 s2 e2 :
+  restrict_rg (restrict g disc s1 e1) s2 e2 = restrict g disc (Z.max s1 s2) (Z.min e1 e2).
+Proof.
+  unfold restrict_rg, restrict. cbn [rg_I rg_tp rg_dt rg_Dt rg_disc]. unfold pick.
+  assert (EI : restrict_I g (Z.max s1 s2) (Z.min e1 e2) = filter (fun i => in_window s2 e2 (pt g i)) (restrict_I g s1 e1)).
+  { unfold restrict_I. rewrite filter_filter. apply filter_ext. intros i. symmetry. apply in_window_meet. }
+  rewrite EI. set (I := restrict_I g s1 e1). set (f := fun i => in_window s2 e2 (pt g i)).
+  assert (M : forall {B} (k : nat -> B), fmask (map (in_window s2 e2) (map (fun i => nth i (g_pts g) 0%Z) I)) (map k I) = map k (filter f I)).
+  { intros B k. apply fmask_map. intros i. reflexivity. }
+  f_equal.
+  - rewrite <- (map_id I) at 2. rewrite (M _ (fun i => i)). rewrite map_id. reflexivity.
+  - apply M.
+  - apply M.
+  - apply M.
+  - apply M.
+Qed.
